@@ -5,6 +5,7 @@
 SPECIFICATION Spec
 CONSTANTS
   MaxObj = 4
+  Extended = FALSE
   Ks = {1, 2}
   NsSeq <- Ns1
   WithEmpty = TRUE
